@@ -63,7 +63,10 @@ MutinyStream<'a, ItemType, ChannelConsumerType, DerivedItemType> {
                     #[cfg(feature = "verif")] crate::verif::yield_point();
                     Poll::Pending
                 } else {
-                    Poll::Ready(None)
+                    // told to end: one last look before answering "end-of-stream" -- an event may have become available between
+                    // our (empty) `consume()` above and the end request (e.g. `flush()` found nothing pending because this very
+                    // consumer had its dequeueing ticket taken, but not yet given back, when the event was published)
+                    Poll::Ready(self.events_source.consume(self.stream_id))
                 }
             },
         }
